@@ -34,6 +34,11 @@ Expected(e) ==
 InFamily(e) == LET G == TLCEval(Gram(e.J)) IN
                LamIsInt(G) /\ ThreshSign(LamFloor(G), e.e + e.a) # 0
 
+\* exact arithmetic on LOGGED weights is only attempted when they are small rationals (32-bit range);
+\* the equality test E.w = Expected(E) itself never computes with them
+SmallW(w)  == \A i \in DOMAIN w : w[i][2] <= 64 /\ Abs(w[i][1]) <= 1000
+AwL(A, w)  == [i \in 1..Len(A) |-> RSumL([j \in 1..Len(A) |-> RMul(R(A[i][j]), w[j])])]
+
 \* which clause of the definition the logged weights break (DualProj: the KKT system itself;
 \* UPGrad: the sum of the row-wise projections)
 Failing(e) ==
@@ -41,15 +46,26 @@ Failing(e) ==
         L   == LamFloor(G)
         A   == AReg(G, e.reg[1], e.reg[2], L)
         w   == e.w
-        Aw  == RMatVec(RMat(A), w)
+        Aw  == AwL(A, w)
         m   == Len(e.J)
     IN  IF w = <<>> THEN "weights_are_not_rational_on_an_exact_instance"
         ELSE IF ThreshSign(L, e.e + e.a) < 0 THEN "below_norm_eps_weights_must_be_the_preference_vector"
+        ELSE IF ~SmallW(w) THEN "weights_differ_from_the_exact_projection"
         ELSE IF \E i \in 1..m : RLt(w[i], e.u[i]) THEN "w_below_preference_vector"
-        ELSE IF e.agg = "upgrad" THEN "not_the_sum_of_the_row_projections_of_diag_u"
         ELSE IF \E i \in 1..m : RSign(Aw[i]) < 0 THEN "regularised_cone_constraint_violated"
+        ELSE IF e.agg = "upgrad" THEN "not_the_sum_of_the_row_projections_of_diag_u"
         ELSE IF \E i \in 1..m : RLt(e.u[i], w[i]) /\ RSign(Aw[i]) # 0 THEN "complementary_slackness_violated"
         ELSE "kkt_point_of_another_problem"
+
+\* C04 on the logged weights, exactly: (G w)_i >= - reg_eps s^2 w_i  <=>  ((q G + p s^2 I) w)_i >= 0
+\* "yes" | "no" | "unknown" (weights not small rationals: the harness evaluates the predicate in float64)
+ConeBad(e) ==
+    LET G   == TLCEval(Gram(e.J))
+        L   == LamFloor(G)
+        A   == AReg(G, e.reg[1], e.reg[2], L)
+    IN  IF ThreshSign(L, e.e + e.a) < 0 THEN "no"
+        ELSE IF e.w = <<>> \/ ~SmallW(e.w) THEN "unknown"
+        ELSE IF \E i \in 1..Len(e.J) : RSign(AwL(A, e.w)[i]) < 0 THEN "yes" ELSE "no"
 
 TInit == /\ fam = [m |-> 1, n |-> 1, e |-> 0] /\ ents = <<>> /\ phase = "trace" /\ res = <<>>
          /\ ep = 1 /\ nAcc = 0 /\ nRej = 0 /\ nSkip = 0
@@ -61,7 +77,7 @@ TSkip   == ep <= NEp /\ ~InFamily(E)
            /\ PrintT(<<"SKIP", ToJson([ep |-> E.ep])>>) /\ Step(0, 0, 1)
 TAccept == ep <= NEp /\ InFamily(E) /\ E.w = Expected(E) /\ Step(1, 0, 0)
 TReject == ep <= NEp /\ InFamily(E) /\ E.w # Expected(E)
-           /\ PrintT(<<"REJECT", ToJson([ep |-> E.ep, clause |-> Failing(E), expected |-> Expected(E)])>>)
+           /\ PrintT(<<"REJECT", ToJson([ep |-> E.ep, clause |-> Failing(E), expected |-> Expected(E), cone |-> ConeBad(E)])>>)
            /\ Step(0, 1, 0)
 TDone   == ep = NEp + 1 /\ phase = "trace"
            /\ PrintT(<<"SUMMARY", ToJson([episodes |-> NEp, accepted |-> nAcc, rejected |-> nRej, skipped |-> nSkip])>>)
